@@ -330,6 +330,39 @@ type rlocker RWMutex
 func (r *rlocker) Lock()   { (*RWMutex)(r).RLock() }
 func (r *rlocker) Unlock() { (*RWMutex)(r).RUnlock() }
 
+// Once is the shim for sync.Once: under control a second caller waits at scheduler level (a native
+// Once held across a scheduling point would block the baton holder for good).
+type Once struct {
+	real    sync.Once
+	done    bool
+	running bool
+}
+
+func (o *Once) Do(f func()) {
+	s := cur()
+	if s == nil {
+		o.real.Do(f)
+		return
+	}
+	s.checkAbort()
+	if o.done {
+		return
+	}
+	s.point("once")
+	for o.running {
+		s.block("once-wait", func() bool { return !o.running })
+	}
+	if o.done {
+		return
+	}
+	o.running = true
+	defer func() {
+		o.running = false
+		o.done = true
+	}()
+	f()
+}
+
 type WaitGroup struct {
 	real sync.WaitGroup
 	n    int
